@@ -82,7 +82,7 @@ theorem watershed_idx_of_label_is_root (g : Graph) (col : List Rat) (v : Nat) (h
   exact List.getElem?_idxOf (basinRoot_mem_basinRoots g col v hv)
 
 /-- `custom_watershed` computes `idx[c]` as the first arg-max of the field inside basin `c`
-    (`ma.array(field, mask=(label != c)).argmax()`): that vertex IS the root of the basin —
+    (`_argmax_within(field, label == c)`, formerly a masked arg-max): that vertex IS the root of the basin —
     the root carries the largest value of its basin and, among equal values, the smallest index. -/
 theorem basin_argmax_is_root (g : Graph) (col : List Rat) (v : Nat) (hv : v < g.V) :
     maskedArgmax g.V (at_ col) (fun u => basinRoot g col u == basinRoot g col v) =
